@@ -7,6 +7,7 @@ import Hv.Hdd
 import Hv.Concat
 import HvProofs.Concat
 import HvProofs.VmdkDescRT
+import HvProofs.VmdkDescParse
 import HvProofs.ConcatSparse
 namespace Hv.C10
 open Hv Hv.VmdkDesc Hv.Concat
@@ -437,5 +438,88 @@ example : (Hdd.mk exStorages).read 0 1900 = .ok (slice (concat exP) 0 2048) :=
 example : (Hdd.mk [exStorages[2], exStorages[0], exStorages[1]]).read 0 1900 = .ok (slice (concat exP) 0 2048) :=
   (storage_concat_read_any_order [exStorages[2], exStorages[0], exStorages[1]] exP (by decide)
     (by show Tiles 0 exStorages exP; exact exTiles) 0 1900 (by decide) (by decide)).1
+
+/-! ### `DiskDescriptor.parse` on a whole multi-line descriptor
+
+  `parse` cuts the text at every `\n`, strips each line, drops empty lines and comments, hands lines that begin with
+  `RW ` / `RDONLY ` / `NOACCESS ` to the extent grammar and treats the rest as `key = value` settings.  The two
+  theorems below are about the *whole loop*, for any number of lines: the extent list is exactly the list of the
+  extent lines **in the order in which they are listed** (nothing reordered, dropped, duplicated or merged by the
+  settings / comment / blank lines in between), and `sectors` is the sum of their sector counts. -/
+
+/-- **descriptor_extents_as_listed**: for every list of lines (any characters except the line feed that separates
+    them), `parse` of the joined text returns the extents of the individual lines, in listed order, and the sum of
+    their sector counts.  A line that the grammar rejects contributes nothing and disturbs nothing. -/
+theorem descriptor_extents_as_listed (lines : List Str) (hne : lines ≠ []) (h : ∀ l ∈ lines, '\n' ∉ l) :
+    (parse (joinLines lines)).extents = lines.filterMap lineExtent ∧
+    (parse (joinLines lines)).sectors = ((lines.filterMap lineExtent).map (·.sectors)).sum := by
+  rw [parse_eq_fold, splitOn_joinLines lines hne h]
+  simpa using fold_extents lines ⟨[], [], [], 0⟩
+
+/-- a descriptor as a writer lays it out: printed extents (`.inr`) between arbitrary other lines (`.inl`: settings,
+    comments, blank lines, the disk data base — anything that is not itself an extent line) -/
+def itemLine : Str ⊕ ExtentSpec → Str
+  | .inl s => s
+  | .inr e => printExtentLine e
+def itemExtent : Str ⊕ ExtentSpec → Option ExtentSpec
+  | .inl _ => none
+  | .inr e => some e
+def ItemOk : Str ⊕ ExtentSpec → Prop
+  | .inl s => '\n' ∉ s ∧ lineExtent s = none
+  | .inr e => wfExtent e = true
+
+/-- **descriptor_roundtrip**: parsing the text of a descriptor whose extent lines were printed from the abstract
+    extents `es` (class `wfExtent`), with any other lines before, between and after them, returns exactly `es` —
+    same order, same fields (access, sectors, type, file name, start sector, uuid, device) — and
+    `sectors = Σ es.sectors`.  Unbounded in the number of extents and of other lines. -/
+theorem descriptor_roundtrip (items : List (Str ⊕ ExtentSpec)) (hne : items ≠ []) (h : ∀ it ∈ items, ItemOk it) :
+    (parse (joinLines (items.map itemLine))).extents = (items.filterMap itemExtent).map ExtentSpec.toExtent ∧
+    (parse (joinLines (items.map itemLine))).sectors = ((items.filterMap itemExtent).map (·.sectors)).sum := by
+  have hl : ∀ l ∈ items.map itemLine, '\n' ∉ l := by
+    intro l hl
+    obtain ⟨it, hit, rfl⟩ := List.mem_map.mp hl
+    cases it with
+    | inl s => exact (h _ hit).1
+    | inr e => exact print_no_nl e (h _ hit)
+  have hf : (items.map itemLine).filterMap lineExtent = (items.filterMap itemExtent).map ExtentSpec.toExtent := by
+    clear hne hl
+    induction items with
+    | nil => rfl
+    | cons it its ih =>
+      have hit := h it (by simp)
+      have ih' := ih (fun x hx => h x (by simp [hx]))
+      cases it with
+      | inl s =>
+        have e1 : lineExtent s = none := hit.2
+        simp only [List.map_cons, List.filterMap_cons, itemLine, itemExtent, e1, ih']
+      | inr e =>
+        have e1 : lineExtent (printExtentLine e) = some e.toExtent := lineExtent_print e hit
+        simp only [List.map_cons, List.filterMap_cons, itemLine, itemExtent, e1, ih']
+  obtain ⟨h1, h2⟩ := descriptor_extents_as_listed (items.map itemLine) (by simpa using hne) hl
+  rw [h1, h2, hf]
+  refine ⟨rfl, ?_⟩
+  simp [ExtentSpec.toExtent, Function.comp_def]
+
+/-- non-vacuity: a three-extent descriptor with header settings, a comment, a blank line and a disk data base -/
+def exItems : List (Str ⊕ ExtentSpec) :=
+  [.inl "# Disk DescriptorFile".toList, .inl "version=1".toList, .inl "parentCID=ffffffff".toList, .inl [],
+   .inr exLine1, .inl "# second".toList, .inr exLine2, .inr exLine3, .inl "ddb.adapterType = \"ide\"".toList]
+
+example : ∀ it ∈ exItems, ItemOk it := by
+  intro it hit
+  simp only [exItems, List.mem_cons, List.mem_nil_iff, or_false] at hit
+  rcases hit with h | h | h | h | h | h | h | h | h <;> subst h <;>
+    first
+    | exact ⟨by decide, by decide⟩
+    | (show wfExtent _ = true; decide)
+
+example : (parse (joinLines (exItems.map itemLine))).sectors = 4192256 + 8 + 100 :=
+  (descriptor_roundtrip exItems (by decide) (by
+    intro it hit
+    simp only [exItems, List.mem_cons, List.mem_nil_iff, or_false] at hit
+    rcases hit with h | h | h | h | h | h | h | h | h <;> subst h <;>
+      first
+      | exact ⟨by decide, by decide⟩
+      | (show wfExtent _ = true; decide))).2
 
 end Hv.C10
